@@ -71,13 +71,27 @@ def handle (j : Json) : Json := run do
     let cf ← (fromJson? (← j.getObjVal? "cfail") : Except String (Array (Array Nat)))
     let cfail : Nat → Nat → Bool := fun i a => cf.any fun e => e.size == 2 && e[0]! == i && a < e[1]!
     let fs0 : FS := ⟨preFiles.map fun n => (n, ⟨.base, "old".toList⟩), preDirs⟩
-    let (fs1, r) := saveText fs0 path parts maxR wfail cfail
-    let res := match r with | .ok => "ok" | .alreadyExists => "FileAlreadyExists" | .failed => "failed"
+    -- torn: the failing write attempts that leave a partially written file behind
+    let torns := match j.getObjVal? "torn" with
+      | .ok t => ((fromJson? t : Except String (Array Nat)).toOption.getD #[])
+      | .error _ => #[]
+    let torn : Nat → Bool := fun k => torns.contains k
+    let (fs1, r) := saveTextT fs0 path parts maxR wfail torn cfail
+    if torns.isEmpty && (fs1, r) != saveText fs0 path parts maxR wfail cfail then throw "saveTextT without torn writes differs from saveText"
+    let resOf := fun (r : SaveResult) => match r with | .ok => "ok" | .alreadyExists => "FileAlreadyExists" | .failed => "failed"
+    let res := resOf r
+    -- an optional second, fault-free save of other data to the same path
+    let second ← match j.getObjVal? "second" with
+      | .ok _ => do
+          let p2 ← getParts j "second"
+          let (fs2, r2) := saveText fs1 path p2 maxR (fun _ => false) (fun _ _ => false)
+          pure (Json.mkObj [("result", resOf r2), ("files", fsJson fs2), ("unchanged", decide (fs2 = fs1))])
+      | .error _ => pure Json.null
     let rd := match readDir fs1 path with
       | some ls => toJson (ls.map String.ofList)
       | none => Json.null
     return Json.mkObj [("result", res), ("files", fsJson fs1), ("dirs", toJson (fs1.dirs.map String.ofList)),
-      ("readDir", rd), ("unchanged", decide (fs1 = fs0))]
+      ("readDir", rd), ("unchanged", decide (fs1 = fs0)), ("second", second)]
   | _ => throw "op"
 
 end Driver.C08
